@@ -182,6 +182,14 @@ Theorem C01_coalesced_b_spec : forall U st sps m, span_Inv_with U st sps m ->
 Proof. exact coalesced_b_spec. Qed.
 Print Assumptions C01_coalesced_b_spec.
 
+(* the search over the span queues of several segments picks, in the segment it chooses, the slice that the
+   search over that segment's own queues picks (this is what the dump replay checks per segment) *)
+Theorem C01_t_find_proj : forall segs tqs count suit sid idx sg,
+  t_find segs tqs count suit = Some (sid, idx) -> seg_lookup segs sid = Some sg ->
+  exists b, find_span (sg, proj_queues sid tqs) count (fun _ => suit sid) = Some (b, idx).
+Proof. exact t_find_proj. Qed.
+Print Assumptions C01_t_find_proj.
+
 (* ---- allocate_fresh / free_frame ---- *)
 Theorem C01_allocate_fresh : forall sg qs count suit idx st',
   span_Inv (sg, qs) -> page_find_and_allocate (sg, qs) count suit true = (Some idx, st') ->
